@@ -3,6 +3,7 @@ package harness
 import (
 	"bytes"
 	"fmt"
+	aelog "github.com/godaddy/asherah/go/appencryption/pkg/log"
 	"strings"
 	"time"
 
@@ -37,11 +38,37 @@ type fWorld struct {
 	s       *ae.Session
 	rec     *ae.DataRowRecord
 	pay     []byte
+	logs    []string
+	logFrom int
 	argFrom [2]int // marks into AEAD.KeyArgs / KMS.EncryptInputRefs (set after set-up and after each judged operation)
+}
+
+type fLogger struct{ fw *fWorld }
+
+func (l fLogger) Debugf(format string, v ...interface{}) {
+	l.fw.logs = append(l.fw.logs, fmt.Sprintf(format, v...))
+}
+
+// logLeak is C03's log clause on the fault paths: nothing an operation logged (also while failing) contains plaintext
+// key bytes or the payload.
+func (fw *fWorld) logLeak(c *explore.Ctx, what string) {
+	lines := fw.logs[fw.logFrom:]
+	fw.logFrom = len(fw.logs)
+	if len(lines) == 0 {
+		return
+	}
+	needles := map[string][]byte{"payload": fw.pay}
+	for kid, b := range fw.w.TF.Reg.KeyBytes {
+		needles[fmt.Sprintf("key#%d", kid)] = b
+	}
+	if nn, line := scanLogLines(lines, needles); nn != "" {
+		c.Failf("C03:plaintext-leak-log", "%s: plaintext bytes of %s were printed into a log line: %.120q", what, nn, line)
+	}
 }
 
 func (sc fScenario) setup() *fWorld {
 	fw := &fWorld{w: NewWorld()}
+	aelog.SetLogger(fLogger{fw})
 	fw.f = fw.w.NewFactory(sc.spec)
 	mustEnc := func(s *ae.Session, pl []byte) *ae.DataRowRecord {
 		r, err := s.Encrypt(ctx, append([]byte(nil), pl...))
@@ -231,6 +258,7 @@ func (sc fScenario) body(ff fFaults) explore.Body {
 		vsched.BeginQuiet()
 		fw := sc.setup()
 		fw.argFrom = [2]int{len(fw.w.AEAD.KeyArgs), len(fw.w.KMS.EncryptInputRefs)}
+		fw.logFrom = len(fw.logs)
 		vsched.EndQuiet()
 		usedDRK := map[string]bool{}
 		for round := 0; round < 2; round++ {
@@ -277,6 +305,7 @@ func (sc fScenario) body(ff fFaults) explore.Body {
 			if err == nil && sc.op == "enc" {
 				fw.envelope(c, what, aeadCallsFrom, secFrom, usedDRK)
 			}
+			fw.logLeak(c, what)
 			// C10: transient plaintext copies
 			fw.wiped(c, what, kmsFrom, aeadFrom, srcFrom, fw.pay)
 			// C09: per-call release of data keys created by this operation (row keys may stay cached)
